@@ -3,6 +3,7 @@ package checks
 import (
 	"encoding/base64"
 	"fmt"
+	"io"
 	"math"
 	"runtime"
 	"sort"
@@ -64,40 +65,48 @@ defaults { max_body %d
 				if n < 0 {
 					continue
 				}
-				before, _ := vlib.ListAll(a.Store)
-				req, _ := l2.NewRequest("POST", lm.route, r.Bytes(n), "")
-				if n == 0 {
-					req, _ = l2.NewRequest("POST", lm.route, []byte{}, "")
-				}
-				resp := l2.Do(a.Ingress, req)
-				after, _ := vlib.ListAll(a.Store)
-				c.Count("evaluations", 1)
-				c.Distinct("nontrivial", fmt.Sprintf("body:%s:%d", cmpClass(n, lm.body), resp.Status))
-				want := 202
-				if n > lm.body {
-					want = 413
-				}
-				if resp.Status != want {
-					c.Violation(vlib.Signature{"class": "body_limit_status", "want": fmt.Sprint(want), "got": fmt.Sprint(resp.Status), "rel": cmpClass(n, lm.body)},
-						fmt.Sprintf("route %s max_body=%d body=%d bytes answered %d, expected %d", lm.route, lm.body, n, resp.Status, want),
-						map[string]any{"config": cfg, "route": lm.route, "body_len": n})
-				}
-				grew := len(after) - len(before)
-				if (resp.Status == 202) != (grew == 1) || (resp.Status != 202 && grew != 0) {
-					c.Violation(vlib.Signature{"class": "size_refusal_effect", "status": fmt.Sprint(resp.Status), "grew": fmt.Sprint(grew)},
-						fmt.Sprintf("route %s body=%d answered %d but the queue grew by %d", lm.route, n, resp.Status, grew),
-						map[string]any{"config": cfg})
-				}
-				if resp.Status == 202 && grew == 1 {
-					for _, e := range after {
-						found := false
-						for _, b := range before {
-							if b.ID == e.ID {
-								found = true
+				for _, framing := range []string{"content_length", "undeclared_length"} {
+					before, _ := vlib.ListAll(a.Store)
+					req, _ := l2.NewRequest("POST", lm.route, r.Bytes(n), "")
+					if n == 0 {
+						req, _ = l2.NewRequest("POST", lm.route, []byte{}, "")
+					}
+					if framing == "undeclared_length" {
+						// as a chunked upload reaches the handler: no declared length
+						req.ContentLength = -1
+						req.Body = io.NopCloser(struct{ io.Reader }{req.Body})
+						req.TransferEncoding = []string{"chunked"}
+					}
+					resp := l2.Do(a.Ingress, req)
+					after, _ := vlib.ListAll(a.Store)
+					c.Count("evaluations", 1)
+					c.Distinct("nontrivial", fmt.Sprintf("body:%s:%s:%d", cmpClass(n, lm.body), framing, resp.Status))
+					want := 202
+					if n > lm.body {
+						want = 413
+					}
+					if resp.Status != want {
+						c.Violation(vlib.Signature{"class": "body_limit_status", "want": fmt.Sprint(want), "got": fmt.Sprint(resp.Status), "rel": cmpClass(n, lm.body)},
+							fmt.Sprintf("route %s max_body=%d body=%d bytes answered %d, expected %d", lm.route, lm.body, n, resp.Status, want),
+							map[string]any{"config": cfg, "route": lm.route, "body_len": n})
+					}
+					grew := len(after) - len(before)
+					if (resp.Status == 202) != (grew == 1) || (resp.Status != 202 && grew != 0) {
+						c.Violation(vlib.Signature{"class": "size_refusal_effect", "status": fmt.Sprint(resp.Status), "grew": fmt.Sprint(grew)},
+							fmt.Sprintf("route %s body=%d answered %d but the queue grew by %d", lm.route, n, resp.Status, grew),
+							map[string]any{"config": cfg})
+					}
+					if resp.Status == 202 && grew == 1 {
+						for _, e := range after {
+							found := false
+							for _, b := range before {
+								if b.ID == e.ID {
+									found = true
+								}
 							}
-						}
-						if !found && len(e.Payload) != n {
-							c.Violation(vlib.Signature{"class": "stored_truncated"}, fmt.Sprintf("accepted %d byte body stored as %d bytes", n, len(e.Payload)), map[string]any{"config": cfg})
+							if !found && len(e.Payload) != n {
+								c.Violation(vlib.Signature{"class": "stored_truncated"}, fmt.Sprintf("accepted %d byte body stored as %d bytes", n, len(e.Payload)), map[string]any{"config": cfg})
+							}
 						}
 					}
 				}
